@@ -95,6 +95,7 @@ class Kernel:
         self.nrec = 0
         self.keep_log = keep_log
         self.log = []
+        self.line_cost = instr_cost / 4.0
         self.baton_locks = 0        # SimLocks currently held by a baton thread (no pre-emption inside)
         self.preemptions = 0
         self.blocked_tags = set()   # event tags deferred while e.g. the reactor is blocked
@@ -155,6 +156,16 @@ class Kernel:
         if not self._main_sem.acquire(timeout=self.hang_wall_s):
             raise HarnessError("baton thread %s did not reach a seam within %.0fs wall" % (t.name, self.hang_wall_s))
         self.cur_node, self.cur_thread = prev_node, prev_thread
+
+    def line_event(self):
+        """Line-level pre-emption point (installed by the seams on selected functions through sys.monitoring)."""
+        if self.cur_thread is not None and self.baton_locks == 0 and not self.aborting \
+                and threading.current_thread() is self.cur_thread.thread:
+            self.now += self.line_cost
+            h = self._heap
+            if h and h[0][0] <= self.now:
+                self.preemptions += 1
+                self.yield_point()
 
     def on_baton(self):
         ct = self.cur_thread
@@ -303,6 +314,7 @@ class SimLock:
         if k is not None and k.cur_thread is not None and k.baton_locks == 0 and not k.aborting:
             # taking a lock is a pre-emption point of a baton thread: whatever is due (another thread that was
             # notified, an arriving datagram) runs first, as it could on a real machine
+            k.now += k.instr_cost
             k.yield_point()
         if self.held:
             raise HarnessError("SimLock contended: a thread parked while holding the lock")
@@ -319,6 +331,7 @@ class SimLock:
             k = self.k
             k.baton_locks -= 1
             if k.baton_locks == 0 and k.cur_thread is not None and not k.aborting:
+                k.now += k.instr_cost
                 k.yield_point()          # ... and so is giving it back
 
     def __enter__(self):
